@@ -43,6 +43,10 @@ func (t *c07Type) text() string {
 		return `1`
 	case "array":
 		return "[\n\t1\n]"
+	case "object-or": // an empty object that is only the example of a type which admits other values too
+		return `{} // {or: [{type: "object"}, {type: "string"}]}`
+	case "object-any":
+		return `{} // {type: "any"}`
 	}
 	var rules []string
 	if len(t.AllOf) == 1 {
@@ -225,6 +229,7 @@ func c07Case(w *core.W, m *c07Model) {
 	var exErr error
 	var oasKeys []string
 	var inner []string
+	var oasAgain string
 	innerBy := map[string][]string{}
 	rec, site := guard(func() {
 		root, berr := buildProject(p)
@@ -243,12 +248,23 @@ func c07Case(w *core.W, m *c07Model) {
 			infos := openapi.Dereference(root)
 			if len(infos) > 0 {
 				if oi, ok := infos[0].(openapi.ObjectInformer); ok {
-					for _, pi := range oi.PropertiesInfos() {
-						o := ""
-						if pi.Optional() {
-							o = "?"
+					list := func() (out []string) {
+						for _, pi := range oi.PropertiesInfos() {
+							o := ""
+							if pi.Optional() {
+								o = "?"
+							}
+							out = append(out, pi.Key()+o)
 						}
-						oasKeys = append(oasKeys, pi.Key()+o)
+						return out
+					}
+					oasKeys = list()
+					// the listing is the same however often it is asked for
+					for n := 2; n <= 3; n++ {
+						if again := list(); fmt.Sprint(again) != fmt.Sprint(oasKeys) {
+							oasAgain = fmt.Sprintf("call %d lists %v, the first call listed %v", n, again, oasKeys)
+							break
+						}
 					}
 				}
 			}
@@ -320,6 +336,9 @@ func c07Case(w *core.W, m *c07Model) {
 		fail("example-key-set", "Example() failed: "+errStr(exErr), nil)
 	} else if tree, derr := ref.DecodeOrdered(ex); derr != nil || tree.Kind != 'o' || strings.Join(tree.Keys, ",") != strings.Join(want, ",") {
 		fail("example-key-set", fmt.Sprintf("Example() keys %v, own+inherited keys are %v (%s)", tree.Keys, want, trunc(string(ex), 80)), nil)
+	}
+	if oasAgain != "" {
+		fail("openapi-key-set", "PropertiesInfos() "+oasAgain, map[string]string{"what": "repeated-call"})
 	}
 	sa, sb := append([]string{}, oasKeys...), append([]string{}, wantSet...)
 	sortStrings(sa)
@@ -485,7 +504,10 @@ func c07Run(w *core.W) {
 	obj := func(own []c07Key, allOf []string, ap string) *c07Type {
 		return &c07Type{Shape: "object", Own: own, AllOf: allOf, AP: ap}
 	}
-	ownRoot := [][]c07Key{nil, {k("k1")}, {k("k2")}, {k("k1"), ko("k2")}, {ko("k1")}, {k("k1"), kn("k3")}}
+	ownRoot := [][]c07Key{nil, {k("k1")}, {k("k1"), ko("k2")}, {ko("k1")}, {k("k1"), kn("k3")}}
+	if w.Thorough() {
+		ownRoot = append(ownRoot, []c07Key{k("k2")})
+	}
 	allOfRoot := [][]string{nil}
 	cand := []string{"@a", "@b", "@c", "@x", "@root"}
 	for _, a := range cand {
@@ -499,7 +521,7 @@ func c07Run(w *core.W) {
 		}
 	}
 	// the same ancestor named twice: its properties arrive twice (refused unless it has none)
-	allOfRoot = append(allOfRoot, []string{"@a", "@a"}, []string{"@c", "@c"}, []string{"@b", "@c", "@b"})
+	allOfRoot = append(allOfRoot, []string{"@a", "@a"}, []string{"@b", "@c", "@b"})
 	apRoot := []string{"", "true", "false", `"string"`, `"@c"`}
 	if !w.Thorough() {
 		apRoot = []string{"", "true", "false"}
@@ -520,7 +542,7 @@ func c07Run(w *core.W) {
 			}
 		}
 	}
-	as = append(as, &c07Type{Shape: "scalar"}, &c07Type{Shape: "array"})
+	as = append(as, &c07Type{Shape: "scalar"}, &c07Type{Shape: "array"}, &c07Type{Shape: "object-or"}, &c07Type{Shape: "object-any"})
 	for _, o := range [][]c07Key{{k("b1")}, {k("k2")}, {ko("b1"), kn("b2")}, {ke("b1"), k("b2")}} {
 		for _, al := range [][]string{nil, {"@c"}, {"@a"}} {
 			for _, ap := range []string{"", "false", `"string"`} {
@@ -531,7 +553,7 @@ func c07Run(w *core.W) {
 			}
 		}
 	}
-	bs = append(bs, &c07Type{Shape: "scalar"})
+	bs = append(bs, &c07Type{Shape: "scalar"}, &c07Type{Shape: "object-or"})
 	cs = []*c07Type{obj([]c07Key{k("c1")}, nil, ""), obj([]c07Key{k("k1")}, nil, "true"), obj([]c07Key{ko("c1")}, nil, "false"), obj([]c07Key{ke("c1"), k("c2")}, nil, ""), {Shape: "scalar"}}
 	var i int64
 	for _, r := range roots {
@@ -570,7 +592,7 @@ func init() {
 	Register(&Prop{
 		ID:        "C07",
 		Technique: "bounded exhaustive enumeration of inheritance graphs (DAGs, diamonds, cycles, missing and non-object ancestors, overlapping keys, additionalProperties combinations) judged by a reference merge",
-		Rule:      "@root, @a, @b, @c: objects with own keys from {k1,k2,k3,...} (required/optional/nested) or non-objects; allOf = every ordered list of <=2 of {@a,@b,@c,@x(unregistered),self}; additionalProperties in {absent,true,false,(thorough: \"string\",\"@c\")}; reference: refusal for non-object / missing / cyclic / duplicate key / conflicting additionalProperties, otherwise Example() keys = own then inherited in list order, OpenAPI property listing = same set with optional marks, compiled children marked InheritedFrom with required/optional status kept; non-trivial = every project (each has a reference verdict)",
+		Rule:      "@root, @a, @b, @c: objects with own keys from {k1,k2,k3,...} (required/optional/nested/empty-object values) or non-objects (a scalar, an array, an empty object that carries an or rule or type any); allOf = every ordered list of <=2 of {@a,@b,@c,@x(unregistered),self}; additionalProperties in {absent,true,false,(thorough: \"string\",\"@c\")}; reference: refusal for non-object / missing / cyclic / duplicate key / conflicting additionalProperties, otherwise Example() keys = own then inherited in list order, OpenAPI property listing = same set with optional marks, compiled children marked InheritedFrom with required/optional status kept; non-trivial = every project (each has a reference verdict)",
 		Bounds:    func(tier string) map[string]any { return map[string]any{"types": 4, "max_allOf_list": 2} },
 		Run:       c07Run,
 		Replay: func(w *core.W, v *core.Violation) {
